@@ -67,7 +67,7 @@ def _roundtrip_all(p, cfg):
     try:
         path = os.path.join(d, "out.yaml")
         try:
-            p.save(cfg, path)
+            p.save(cfg, path, skip_none=False)  # "with nulls kept": the default drops None entries
             back = p.parse_path(path)
             from jsonargparse import strip_meta
 
@@ -327,7 +327,7 @@ def _e2e_native(parser, pc_parser, obj, skip_default):
     try:
         path = os.path.join(d, "out.yaml")
         try:
-            parser.save(cfg, path)
+            parser.save(cfg, path, skip_none=False)  # "with nulls kept": the default drops None entries
             r = same(cfg, strip_meta(parser.parse_path(path)))
         except Exception as ex:
             r = f"{type(ex).__name__}: {str(ex)[:200]}"
